@@ -68,9 +68,13 @@ type srvKey struct {
 	Mux    bool
 	Scopes bool   // auth.additionalScopes = HeartBeats, NewWorkConns
 	Auth   string // "" = token | empty (token method, no token on either side) | oidc (no token either)
+	Legacy bool   // the server is configured through a legacy INI document (tls_only), only with Mode force / Auth "" / Cert random
 }
 
 func (k srvKey) String() string {
+	if k.Legacy {
+		return fmt.Sprintf("mode=%s,cert=%s,mux=%v,scopes=%v,auth=%s,legacy-ini", k.Mode, k.Cert, k.Mux, k.Scopes, k.Auth)
+	}
 	return fmt.Sprintf("mode=%s,cert=%s,mux=%v,scopes=%v,auth=%s", k.Mode, k.Cert, k.Mux, k.Scopes, k.Auth)
 }
 
@@ -142,6 +146,13 @@ func serverFor(k srvKey) (*pooledServer, error) {
 				fmt.Fprintf(&sb, "transport.tls.certFile = \"%s\"\ntransport.tls.keyFile = \"%s\"\n", pki.SrvOtherNameCrt, pki.SrvOtherNameKey)
 			case "otherca":
 				fmt.Fprintf(&sb, "transport.tls.certFile = \"%s\"\ntransport.tls.keyFile = \"%s\"\n", pki.SrvOtherCACrt, pki.SrvOtherCAKey)
+			}
+			if k.Legacy {
+				// the same policy written as a legacy INI document: tls_only must mean transport.tls.force
+				sb.Reset()
+				fmt.Fprintf(&sb, "[common]\nbind_addr = 127.0.0.1\nproxy_bind_addr = 127.0.0.1\nbind_port = %d\nkcp_bind_port = %d\nquic_bind_port = %d\n", ps.Bind, ps.Bind, ps.Quic)
+				fmt.Fprintf(&sb, "vhost_http_port = %d\ntcpmux_httpconnect_port = %d\ntoken = %s\n", ps.Vhost, ps.TMux, ps.Token)
+				fmt.Fprintf(&sb, "allow_ports = 15000-15999\nuser_conn_timeout = 10\ntcp_mux = %v\nmax_pool_count = 3\ntls_only = true\n", k.Mux)
 			}
 			startMu.Lock() // NewService writes package-level state: one at a time
 			ps.Srv, ps.Err = h.StartServerText(prop, sb.String())
